@@ -29,24 +29,24 @@ RULE = (
     "Evaluator.derivative (A3.2/A4.2, rational included); X10 BSpline.split, non rational and rational (both halves: knots, weights, control points, error "
     "classes incl. t on a knot, at both domain ends, outside); X11 curvetools.bezier_to_bspline (cubic/quadratic mixed, "
     "with and without gaps; on the real code every segment = its Bezier curve, exact referee); X12 the generic Bezier class "
-    "(3..10 points): point and derivative() = (point, d1, d2) incl. both end formulas and the snapping of t near 1, reverse() and transform(m); X13 open_uniform_knot_vector / uniform_knot_vector for counts 2..13, orders 2..9, both normalize settings. Non-trivial = the parameter "
+    "(3..10 points): point and derivative() = (point, d1, d2) incl. both end formulas and the snapping of t near 1, reverse() and transform(m); X13 open_uniform_knot_vector / uniform_knot_vector for counts 2..13, orders 2..9, both normalize settings; X14 degree_elevation (A5.9) of single Bezier segments, degrees 1..7, t = 1..4 (order <= 11); X15 bezier_decomposition (A5.6): every yielded segment for all clamped splines of the corpus, also over knots scaled by 2^-30 and 2^20, TypeError for rational / unclamped ones; X16 _normalize_distances, averaged_knots_unconstrained. Non-trivial = the parameter "
     "lies inside the knot range / 0<t<1 / an operation was applied; distinct by hash of (stream, request, twin). "
     "oracle (real code only, referee = independent Cox-de Boor pieces / de Casteljau in Fractions): O1 points and derivatives "
     "up to order 3 for degrees 1..7, clamped/unclamped/non-uniform knots, rational weights, every knot of the domain and "
     "both ends; O2 curve sampled before/after insert_knot, knot_refinement, transform (any knot vector), reverse, "
     "degree_elevation, split (also at an existing knot), bezier_decomposition (clamped), rational weights in ~40 % of the "
-    "splines of every operation that accepts them; O3 interpolation hits fit points and end tangents (pairwise distinct fit "
+    "splines of every operation that accepts them, and knots scaled by 2^-30 / 2^-10 / 2^20 (scale invariance: distinct knots closer than 1e-9); O3 interpolation hits fit points and end tangents (pairwise distinct fit "
     "points, degree >= 2; random sets plus adversarial ones: zig-zag and hair-pin data with direction reversals, very unequal "
     "spacing, a spiral); O4 rational arcs/ellipses lie on the conic, ellipses and ConstructionEllipse.from_arc circles with "
     "unit, NON-UNIT and tilted extrusion vectors (referee: textbook frame centre / major axis / unit normal, independent of "
     "the stored minor axis), cubic_bezier_from_ellipse within 0.2 %; O5 bulge/arc, angle/param, Rytz round trips and the "
     "ellipse-axis conversions: minor_axis() = unit normal x major * ratio, swap_axis() keeps the ellipse and is an involution, "
-    "dxfattribs() for ratio > 1; O6 Bezier curves vs Bernstein form and hodograph."
+    "dxfattribs() for ratio > 1, and the arc constructors from_2p_angle / from_2p_radius / from_3p over the full angle range and both orientations (end points AND enclosed angle, radius, centre side); O6 Bezier curves vs Bernstein form and hodograph."
 )
 TRUSTED_BASE = [
     "Vec3/Vec2/Matrix44 arithmetic is component-wise as modelled by V3/Affine (property C10/C11; here validated by correspondence)",
     "the mini translator in harness/props/c13.py (Bezier point/tangent kernels, signed_bulge_radius: straight-line arithmetic only) emits Lean text that means what the source means; cross-checked by stream X3/X5",
-    "hand model (Model/Curve.lean) of the generic Bezier class (point, derivative), basis_vector, rational knot_refinement, find_span, basis_funcs, span_weighting, Evaluator.point, basis_funcs_derivatives (A2.3, all orders, the two persistent rows of `a` included), Evaluator.derivative (A3.2/A4.2), insert_knot, _insert_knot_rational (numpy 4-vectors read component-wise), knot_refinement, reverse, split_bspline (+ the BSpline constructor checks and knot normalisation), split_bezier, quadratic_to_cubic_bezier, bezier_to_bspline: tied to the code by the correspondence streams X1-X13; translated from source are only the Bezier4P/3P and bulge kernels and the kernels named in surgery_kernels_match_source (new_point of both insert_knot branches, de Casteljau level, quadratic_to_cubic_bezier, d1/d2 weights of Bezier.derivative)",
+    "hand model (Model/Curve.lean) of degree_elevation restricted to ONE Bezier segment (bezalfs with its two loop nests; the multi-segment path of A5.9 is not modelled), bezier_decomposition (A5.6, exact knot comparison instead of math.isclose), _normalize_distances, averaged_knots_unconstrained, unconstrained_global_bspline_interpolation with the linear solver as a parameter, the generic Bezier class (point, derivative), basis_vector, rational knot_refinement, find_span, basis_funcs, span_weighting, Evaluator.point, basis_funcs_derivatives (A2.3, all orders, the two persistent rows of `a` included), Evaluator.derivative (A3.2/A4.2), insert_knot, _insert_knot_rational (numpy 4-vectors read component-wise), knot_refinement, reverse, split_bspline (+ the BSpline constructor checks and knot normalisation), split_bezier, quadratic_to_cubic_bezier, bezier_to_bspline: tied to the code by the correspondence streams X1-X16; translated from source are only the Bezier4P/3P and bulge kernels and the kernels named in surgery_kernels_match_source (new_point of both insert_knot branches, de Casteljau level, quadratic_to_cubic_bezier, d1/d2 weights of Bezier.derivative)",
     "np.searchsorted(knots, t, side='right') is modelled by the bisect_right loop over the whole vector (same result on nondecreasing input)",
     "math.isclose snapping of u to max_t in Evaluator.point/derivative is not modelled (the harness passes exact parameters)",
     "closed form of bulge_center: derived by hand from the trig code (angle addition, cos/sin of 2*atan b), validated numerically by stream X5",
@@ -63,8 +63,10 @@ OPEN = [
     "insert_knot_preserves(+_domain_end), knot_refinement_preserves(+_domain_end), insert_knot_rational_preserves need t <= knots[count]: for knots[count] < t < max_t (unclamped knots only) insert_knot puts t in front of smaller knots (result knot vector not nondecreasing; the points on the domain still agree in every sample): observation, see reports/C13.md",
     "bspline_reverse / bspline_continuous_at_knot need interior multiplicity <= degree (multLeDegree; necessary, #guard counterexample); bspline_reverse_pieces / bspline_reverse_partial hold without it; rational reverse: bspline_reverse_rational under the same hypothesis",
     "split_bspline_preserves (+ split_bspline_second_half_domain_end): knots start at 0, t < knots[count], u in [U[p], t) resp. [t, U[count]]; split_bspline_first_half_cut adds u = t under multLeDegree and U[p] < t; split_bspline_rational_preserves: the NURBS case on the half open intervals (at the cut / end point: oracle + X10 only)",
-    "derivatives of order >= 2 (A2.3 rows 2.., A4.2 k >= 2): modelled for every order and corresponded (X9), proved only for order 1 (basis_derivative_first, evalDerivative_first, rational_derivative_first)",
-    "degree_elevation (A5.9), bezier_decomposition (A5.6): not modelled, oracle on the real code only (bspline_bezier_segment proves that a fully refined spline IS its Bezier segments, the refinement loop of A5.6 itself is not modelled)",
+    "derivatives of order >= 2 (A2.3 rows 2.., A4.2 k >= 2): modelled for every order and corresponded (X9); basis_derivative_higher_recurrence proves the recurrence (2.9) for the k-th Polynomial.derivative of the pieces, the identification of the A2.3 rows with them is proved only for order 1 (basis_derivative_first, evalDerivative_first, rational_derivative_first)",
+    "degree_elevation (A5.9): proved for a single Bezier segment (degree_elevation_bezier_segment, any degree, any t); the multi-segment path (knot insertion + elevation + knot removal) is not modelled: oracle O2 only",
+    "bezier_decomposition (A5.6): modelled for every clamped non rational spline and corresponded (X15); its curve preservation is proved for a single Bezier segment only (bezier_decomposition_single_segment; bspline_bezier_segment proves that a fully refined spline IS its Bezier segments): oracle O2",
+    "interpolation_passes_through_fit_points is relative to the solver hypothesis A x = b (numpy / banded LU solvers are floating point code outside the model); end tangent variants and local_cubic_bspline_interpolation_from_tangents as a whole are not modelled: local_cubic_junction + cubic_double_knot_value state the law at one junction (same sign of the two alphas), oracle O3 checks the function",
     "generic Bezier class: d2 at t = 0 and t = 1 (closed formulas) corresponded (X12), not proved; fewer than 3 definition points are outside the documented domain (derivative(0) raises IndexError for 2 points)",
     "interpolation solvers (basis_vector_collocation reduces 'passes through the fit points' to the exactness of the linear solve), conic -> NURBS constructions, ellipse/arc angle<->parameter conversions: oracle only",
 ]
@@ -431,6 +433,37 @@ def translate_kernels2(ctx) -> str:
             defs.append(f"def bez{st.target.id.upper()}CoeffPy (i n0 t bas : Rat) : Rat :=\n{lets}  {tx}\n")
         else:
             raise Untranslatable(f"Bezier.derivative: statement {ast.unparse(st)[:60]}")
+    # A5.9: the coefficient of the Bezier elevation table, A5.6: alpha and the in-place update of a Bezier point
+    fe = _find_def(bs, "degree_elevation")
+    asg = [n for n in ast.walk(fe) if isinstance(n, ast.Assign) and ast.unparse(n.targets[0]) == "bezalfs[i, j]"]
+    if len(asg) != 2 or ast.unparse(asg[1].value) != "bezalfs[ph - i, p - j]":
+        raise Untranslatable("degree_elevation: bezalfs assignments")
+    srce = ast.unparse(fe)
+    for frag in ("inv = 1.0 / binom(ph, i)", "for i in range(1, ph2 + 1):", "for j in range(max(0, i - t), mpi + 1):", "for i in range(ph2 + 1, ph):",
+                 "bezalfs[0, 0] = 1.0", "bezalfs[ph, p] = 1.0", "ebpts[i] = ebpts[i] + bezalfs[i, j] * bpts[j]", "Qw[0] = Pw[0]"):
+        if frag not in srce:
+            raise Untranslatable(f"degree_elevation: {frag} changed")
+    sym = Sym({"inv": S("(1 / cphi)"), "binom(p, j)": S("cpj"), "binom(t, i - j)": S("ctij")},
+              opaque=lambda sy, call: sy.env.get(ast.unparse(call)))
+    k, tx = sym.expr(asg[0].value)
+    if k != "s":
+        raise Untranslatable("degree_elevation: bezalfs value")
+    defs.append(f"def bezalfsCoeffPy (cphi cpj ctij : Rat) : Rat :=\n  {tx}\n")
+    fd = _find_def(next(n for n in bs.body if isinstance(n, ast.ClassDef) and n.name == "BSpline"), "bezier_decomposition")
+    srcd = ast.unparse(fd)
+    for frag in ("numer = knots[b] - knots[a]", "alphas[j - mult - 1] = numer / (knots[a + j] - knots[a])", "alpha = alphas[k - s]",
+                 "for k in range(p, s - 1, -1):", "next_bezier_points[save] = bezier_points[p]", "next_bezier_points[i] = control_points[b - p + i]",
+                 "math.isclose(knots[b + 1], knots[b])"):
+        if frag not in srcd:
+            raise Untranslatable(f"bezier_decomposition: {frag} changed")
+    upd = [n for n in ast.walk(fd) if isinstance(n, ast.Assign) and ast.unparse(n.targets[0]) == "bezier_points[k]"]
+    if len(upd) != 1:
+        raise Untranslatable("bezier_decomposition: update of bezier_points[k]")
+    sym = Sym({"alpha": S("alpha"), "bezier_points[k]": V("bk"), "bezier_points[k - 1]": V("bk1")})
+    k, tx = sym.expr(upd[0].value)
+    if k != "v":
+        raise Untranslatable("bezier_decomposition: update is not a point")
+    defs.append(f"def decompUpdatePy (alpha : Rat) (bk bk1 : V3) : V3 :=\n  {tx}\n")
     if len([d for d in defs if d.startswith("def bezD")]) != 2:
         raise Untranslatable("Bezier.derivative: d1/d2 weights")
     src = ast.unparse(f)
@@ -986,6 +1019,23 @@ def correspond(ctx):
                             C.add("X9 derivatives", req, "ok " + ",".join(["#:#:#"] * len(ds)), nums, twin=im.name)
                         except ZeroDivisionError as e:
                             C.add("X9 derivatives", req, err_name(e), twin=im.name)
+        # ---- X15: bezier_decomposition (A5.6): every yielded segment; TypeError for rational / unclamped splines
+        for ww, Ud in ([(None, U), (w, U)] if w else [(None, U), (None, [k * Fr(1, 2 ** 30) for k in U]), (None, [k * 2 ** 20 for k in U])]):
+            req = f"decomp|{order}|{rlist(Ud)}|{rlist(ww) if ww else ''}|{vlist(cps)}"
+            for im in tw:
+                with use_twin(im):
+                    from ezdxf.math.bspline import BSpline
+
+                    try:
+                        segs = [list(sg) for sg in BSpline([im.v3(c) for c in cps], order, [float(k) for k in Ud],
+                                                          [float(x) for x in ww] if ww else None).bezier_decomposition()]
+                        nums = []
+                        for sg in segs:
+                            for q in sg:
+                                nums += [q.x, q.y, q.z]
+                        C.add("X15 bezier_decomposition", req, "ok " + ";".join(",".join(["#:#:#"] * len(sg)) for sg in segs), nums, twin=im.name)
+                    except TypeError as e:
+                        C.add("X15 bezier_decomposition", req, err_name(e), nontrivial=False, twin=im.name)
         # ---- X4: insert_knot / reverse knots (BSpline level, both twins)
         if True:
             ts = [rng.choice(dom) for _ in range(2)] + [U[p] / 2 if U[p] > 0 else Fr(-1), U[-1], U[-1] + 1, Fr(0),
@@ -1143,6 +1193,8 @@ def correspond(ctx):
                             except ZeroDivisionError as e:
                                 C.add("X8 reverse", req, err_name(e), twin=im.name)
     split_bezier_cases(ctx, C, tw)
+    interpolation_setup_cases(ctx, C)
+    elevate_bezier_cases(ctx, C, tw)
     knot_vector_cases(ctx, C)
     generic_bezier_cases(ctx, C)
     bezier_to_bspline_cases(ctx, C, tw)
@@ -1245,6 +1297,57 @@ def knot_vector_cases(ctx, C: "Cases"):
                     ks = fn(count, order, normalize=norm)
                     C.add("X13 knot vectors", f"kvec|{kind}|{count}|{order}|{int(norm)}", ",".join("#" * len(ks)), [float(k) for k in ks],
                           twin="bspline.py")
+
+
+def elevate_bezier_cases(ctx, C: "Cases", tw):
+    """X14: degree_elevation (A5.9) of splines that are ONE Bezier segment (count = order, clamped): control points and knots
+    of the result, degrees 1..7, elevation by 1..4, both twins"""
+    rng = ctx.rng("elev1")
+    for i in range(ctx.n(120, 1500)):
+        p = rng.randint(1, 7)
+        t = rng.choice([1, 1, 2, 3, 4])
+        if p + t + 1 > 11:  # MAX_SPLINE_ORDER of the C-extension (acc/constants.h); the Cython Basis rejects higher orders
+            t = 1
+        pts = [gen_point(rng, i % 3 == 0) for _ in range(p + 1)]
+        ub = rng.choice([Fr(1), Fr(1), Fr(3), Fr(5, 2)])
+        U = [Fr(0)] * (p + 1) + [ub] * (p + 1)
+        req = f"elev1|{t}|0|{rs(ub)}|{vlist(pts)}"
+        for im in tw:
+            with use_twin(im):
+                from ezdxf.math.bspline import BSpline
+
+                s2 = BSpline([im.v3(c) for c in pts], p + 1, [float(k) for k in U]).degree_elevation(t)
+                ks, cp = list(s2.knots()), list(s2.control_points)
+                nums = [float(k) for k in ks]
+                for q in cp:
+                    nums += [q.x, q.y, q.z]
+                C.add("X14 elevate Bezier", req, "ok " + ",".join("#" * len(ks)) + "|" + ",".join(["#:#:#"] * len(cp)), nums, twin=im.name)
+        ctx.hist("X14 elevate Bezier", f"p={p}/t={t}")
+
+
+def interpolation_setup_cases(ctx, C: "Cases"):
+    """X16: the exact part of global interpolation: _normalize_distances (the distances are inputs), uniform_t_vector and
+    averaged_knots_unconstrained"""
+    from ezdxf.math.parametrize import _normalize_distances, uniform_t_vector
+    from ezdxf.math.bspline import averaged_knots_unconstrained
+
+    rng = ctx.rng("interp-setup")
+    for i in range(ctx.n(200, 2000)):
+        n = rng.randint(2, 12)
+        ds = [Fr(rng.randint(1, 40), 8) for _ in range(n)]
+        if i % 50 == 49:
+            ds = [Fr(0)] * n
+        tv = _normalize_distances([float(d) for d in ds])
+        C.add("X16 interpolation setup", f"tvec|{rlist(ds)}", "ok " + ",".join("#" * len(tv)), [float(x) for x in tv], twin="parametrize.py")
+        if not tv:
+            continue
+        tot = sum(ds)
+        tex = [Fr(0)] + [sum(ds[:k + 1]) / tot for k in range(n - 1)] + [Fr(1)]
+        for p in (1, 2, 3, 5):
+            if p > n:
+                continue
+            ks = averaged_knots_unconstrained(n, p, [float(x) for x in tex])
+            C.add("X16 interpolation setup", f"aknots|{n}|{p}|{rlist(tex)}", "ok " + ",".join("#" * len(ks)), [float(x) for x in ks], twin="bspline.py")
 
 
 def split_bezier_cases(ctx, C: "Cases", tw):
@@ -1473,6 +1576,12 @@ def oracle_surgery(ctx):
     for idx in range(n):
         clamped_only = idx % 2 == 0
         kind, p, U, cps, w = gen_spline(rng, kinds=["clamped-uniform", "clamped"] if clamped_only else KINDS)
+        # scale invariance: the same control polygon over knots scaled by a power of two (exact in floats) is the same
+        # geometry; with 2^-30 distinct interior knots are closer than 1e-9 to each other and to 0
+        sc = rng.choice([Fr(1), Fr(1), Fr(1), Fr(1, 2 ** 10), Fr(1, 2 ** 30), Fr(2 ** 20)])
+        U = [k * sc for k in U]
+        if sc != 1:
+            kind = kind + f"/knots*2^{sc.numerator.bit_length() - sc.denominator.bit_length()}"
         count = len(cps)
         if not U[p] < U[count]:
             continue
@@ -1810,6 +1919,55 @@ def oracle_conics(ctx):
             ctx.count("O5 round trips", ("angle-param", ratio, i), True)
             if angdiff(param_to_angle(ratio, angle_to_param(ratio, a)), a) > 1e-9 or angdiff(angle_to_param(ratio, param_to_angle(ratio, a)), a) > 1e-9:
                 ctx.fail(f"roundtrip/angle-param/{ratio}/{i}", f"angle_to_param/param_to_angle are not inverse at {a} ratio {ratio}", {"op": "angle-param", "ratio": ratio, "a": a})
+    # arc constructors over the full angle range (both orientations, enclosing angles beyond 180 degrees): the arc passes
+    # through the given points AND encloses the requested angle / has the requested radius with the centre on the stated side
+    for i in range(ctx.n(600, 6000)):
+        sp = Vec2(rng.randint(-20, 20) / 2, rng.randint(-20, 20) / 2)
+        ep = Vec2(rng.randint(-20, 20) / 2, rng.randint(-20, 20) / 2)
+        if sp.distance(ep) < 0.4:
+            continue
+        ccw = rng.random() < 0.5
+        s_, e_ = (sp, ep) if ccw else (ep, sp)  # the documented meaning of ccw=False: start and end are swapped
+        d = sp.distance(ep)
+        ctx.count("O5 round trips", ("arc-constructors", i), True)
+        ang = rng.choice([10, 45, 90, 135, 179, 180, 181, 225, 270, 300, 350, 359, 0.5, 123.456])
+        rep = {"op": "arc-2p-angle", "s": list(sp), "e": list(ep), "angle": ang, "ccw": ccw}
+        try:
+            arc = ConstructionArc.from_2p_angle(sp, ep, ang, ccw)
+            tol = 1e-8 * max(1.0, arc.radius)
+            if arc.start_point.distance(s_) > tol or arc.end_point.distance(e_) > tol or abs(arc.angle_span - ang) > 1e-7:
+                ctx.fail(f"roundtrip/arc/from_2p_angle/{ang}/{int(ccw)}/{i}", f"from_2p_angle({tuple(sp)}, {tuple(ep)}, {ang}, ccw={ccw}): start {tuple(arc.start_point)}, end {tuple(arc.end_point)}, enclosed angle {arc.angle_span}", rep)
+        except Exception as ex:  # noqa
+            ctx.fail(f"roundtrip/arc/from_2p_angle/{type(ex).__name__}/{i}", f"raised {type(ex).__name__}: {ex}", rep)
+        rad = d / 2 * rng.choice([1.0, 1.01, 1.5, 3, 20])
+        left = rng.random() < 0.5
+        rep = {"op": "arc-2p-radius", "s": list(sp), "e": list(ep), "radius": rad, "ccw": ccw, "left": left}
+        try:
+            arc = ConstructionArc.from_2p_radius(sp, ep, rad, ccw, left)
+            tol = 1e-7 * max(1.0, rad)
+            side = (e_ - s_).det(Vec2(arc.center) - s_)
+            ok = arc.start_point.distance(s_) <= tol and arc.end_point.distance(e_) <= tol and abs(arc.radius - rad) <= 1e-12 * rad
+            if rad > d / 2 * 1.001:
+                ok = ok and (side > 0) == left and (arc.angle_span < 180) == left
+            if not ok:
+                ctx.fail(f"roundtrip/arc/from_2p_radius/{int(ccw)}/{int(left)}/{i}", f"from_2p_radius({tuple(sp)}, {tuple(ep)}, {rad}, ccw={ccw}, center_is_left={left}): centre {tuple(arc.center)}, span {arc.angle_span}", rep)
+        except Exception as ex:  # noqa
+            ctx.fail(f"roundtrip/arc/from_2p_radius/{type(ex).__name__}/{i}", f"raised {type(ex).__name__}: {ex}", rep)
+        # three points: the defining point is taken ON a known circle, on the counter clockwise way from start to end
+        cen = Vec2(rng.randint(-10, 10) / 2, rng.randint(-10, 10) / 2)
+        r3 = rng.choice([0.5, 2, 7.5])
+        a0 = rng.random() * 360
+        span = rng.choice([20, 90, 179, 181, 270, 340])
+        q0, q1, qm = (cen + Vec2.from_deg_angle(a0, r3), cen + Vec2.from_deg_angle(a0 + span, r3), cen + Vec2.from_deg_angle(a0 + span * rng.choice([0.2, 0.5, 0.9]), r3))
+        rep = {"op": "arc-3p", "center": list(cen), "radius": r3, "a0": a0, "span": span}
+        try:
+            arc = ConstructionArc.from_3p(q0, q1, qm)
+            tol = 1e-6 * max(1.0, r3)
+            if Vec2(arc.center).distance(cen) > tol or abs(arc.radius - r3) > tol or arc.start_point.distance(q0) > tol \
+                    or arc.end_point.distance(q1) > tol or abs(arc.angle_span - span) > 1e-5:
+                ctx.fail(f"roundtrip/arc/from_3p/{span}/{i}", f"from_3p: centre {tuple(arc.center)} radius {arc.radius} span {arc.angle_span}, expected {tuple(cen)}, {r3}, {span}", rep)
+        except Exception as ex:  # noqa
+            ctx.fail(f"roundtrip/arc/from_3p/{type(ex).__name__}/{i}", f"raised {type(ex).__name__}: {ex}", rep)
     # ellipse-axis conversions: minor_axis(), swap_axis() (an involution that keeps the point set), dxfattribs() for ratio > 1
     import copy
     from ezdxf.math.ellipse import minor_axis as minor_axis_fn
